@@ -6,7 +6,7 @@ package main
 // creates an in-repo function without a contract. Calling it through an inferred frame loses what
 // it does, and obligations that held before are then undecided although the code is right. Such a
 // function - one whose key is not in locks/functions.json - is inlined at its call sites instead
-// when it is loop-free, has no defers and is not recursive: its blocks are executed symbolically in
+// when it is loop-free and not recursive (its own defers run at its returns): its blocks are executed symbolically in
 // the caller's context (own block guards and value names under a prefix, the caller's heap state,
 // the caller's ordinals for call-site anchors), its obligations become obligations of the caller.
 // Functions that existed when the locks were written are never inlined, so the verification
@@ -56,10 +56,7 @@ func (g *Gen) canInline(fn *ssa.Function) bool {
 			return false
 		}
 	}
-	if fn.Recover != nil {
-		return false
-	}
-	// loop-free, no defers / goroutines
+	// loop-free, no goroutines
 	state := map[int]int{}
 	var cyclic bool
 	var dfs func(b *ssa.BasicBlock)
@@ -81,9 +78,13 @@ func (g *Gen) canInline(fn *ssa.Function) bool {
 	}
 	for _, b := range fn.Blocks {
 		for _, in := range b.Instrs {
-			switch in.(type) {
-			case *ssa.Defer, *ssa.Go, *ssa.Select, *ssa.RunDefers:
+			switch x := in.(type) {
+			case *ssa.Go, *ssa.Select:
 				return false
+			case ssa.CallInstruction:
+				if b, ok := x.Common().Value.(*ssa.Builtin); ok && b.Name() == "recover" {
+					return false
+				}
 			}
 		}
 	}
